@@ -188,6 +188,40 @@ static void do_trim(const vector<string>& t) {
   Rec r; r.str("e", "trim").li("s", vt::codes(s)).str("out", res).li("o", vt::codes(o)); r.emit();
 }
 
+// the other specialisations of val<T>
+static void do_vb(const vector<string>& t) {
+  size_t p = 1; string s = take(t, p); bool y = false; string res = guarded([&] { y = Utility::val<bool>(s); });
+  Rec r; r.str("e", "vb").li("s", vt::codes(s)).str("out", res).b("val", y); r.emit();
+}
+static void do_vi(const vector<string>& t) {
+  size_t p = 1; string s = take(t, p); int y = 0; string res = guarded([&] { y = Utility::val<int>(s); });
+  Rec r; r.str("e", "vi").li("s", vt::codes(s)).str("out", res).b("neg", y < 0).i("mag", y < 0 ? -(long long) y : (long long) y); r.emit();
+}
+static void do_vs(const vector<string>& t) {
+  size_t p = 1; string s = take(t, p), o; string res = guarded([&] { o = Utility::val<string>(s); });
+  Rec r; r.str("e", "vs").li("s", vt::codes(s)).str("out", res).li("o", vt::codes(o)); r.emit();
+}
+// numeric overloads of DMS: Decode(d [, m [, s]]) and the splits Encode(ang, d, m [, s])
+static void do_dn(const vector<string>& t) {
+  int nargs = atoi(t[1].c_str()); bool dneg = atoi(t[2].c_str()) != 0; long long D = atoll(t[3].c_str()); bool mneg = atoi(t[4].c_str()) != 0; long long M = atoll(t[5].c_str());
+  bool sneg = atoi(t[6].c_str()) != 0; long long S = atoll(t[7].c_str());
+  double d = dneg ? -double(D) : double(D), m = mneg ? -double(M) : double(M), sc = double((long double) S / 100.0L); if (sneg) sc = -sc;
+  double v = 0; string res = guarded([&] { v = nargs == 1 ? DMS::Decode(d) : nargs == 2 ? DMS::Decode(d, m) : DMS::Decode(d, m, sc); });
+  Rec r; r.str("e", "dn").i("nargs", nargs).b("dneg", dneg).i("D", D).b("mneg", mneg).i("M", M).b("sneg", sneg).i("S", S).str("out", res); put(r, "v", quant(v)); r.emit();
+}
+static void do_sp(const vector<string>& t) {
+  int form = atoi(t[1].c_str()); bool neg = atoi(t[2].c_str()) != 0; long long D = atoll(t[3].c_str()), M = atoll(t[4].c_str()), S = atoll(t[5].c_str());
+  double ang = double((long double) D + (long double) M / 60.0L + (long double) S / 360000.0L); if (neg) ang = -ang;
+  double d = vt::sentinel(1), m = vt::sentinel(2), sc = 0;
+  string res = guarded([&] { if (form == 2) DMS::Encode(ang, d, m); else DMS::Encode(ang, d, m, sc); });
+  bool fin = std::isfinite(d) && std::isfinite(m) && std::isfinite(sc) && fabs(d) < 1e9 && fabs(m) < 1e9 && fabs(sc) < 1e4;
+  long long da = fin ? (long long) fabs(d) : -1, ma = fin ? (long long) floor(fabs(m)) : -1, rest = -1; bool mint = true, sn = false;
+  if (fin && form == 2) { rest = (long long) nearbyintl(((long double) fabs(m) - (long double) ma) * 6000000.0L); sn = std::signbit(m); }
+  if (fin && form == 3) { mint = m == trunc(m); rest = (long long) nearbyintl((long double) fabs(sc) * 100000.0L); sn = std::signbit(sc); }
+  Rec r; r.str("e", "sp").i("form", form).b("neg", neg).i("D", D).i("M", M).i("S", S).str("out", res).b("fin", fin)
+    .i("d", da).b("dint", fin && d == trunc(d)).b("dn", std::signbit(d)).i("m", ma).b("mint", mint).b("mn", std::signbit(m)).i("rest", rest).b("sn", sn); r.emit();
+}
+
 // GeoCoords::Reset(string): outcome and the position held
 static void nm_limbs(Rec& r, const char* k, double v) {
   if (!std::isfinite(v) || fabs(v) > 2.0e9) { r.li(k, {CLIP, 0}); return; }
@@ -212,10 +246,21 @@ static string kf_gc(const string& s, bool longfirst) {
   if (e == t.c_str()) return "none";
   return std::isfinite(v) && fabs(v) > 180 ? "lonwrap" : "none";
 }
+// via: the member of the family of equivalent calls that is used (GeoCoordsText.tla, ViaOK)
 static void do_gc(const vector<string>& t) {
   size_t p = 1; string s = take(t, p); bool centerp = atoi(t[p].c_str()) != 0, longfirst = atoi(t[p + 1].c_str()) != 0;
-  GeoCoords g; string res = guarded([&] { g.Reset(s, centerp, longfirst); });
-  Rec r; r.str("e", "gc").li("s", vt::codes(s)).b("c", centerp).b("w", longfirst).str("out", res).str("kf", kf_gc(s, longfirst));
+  int via = t[0] == "gcv" && p + 2 < t.size() ? atoi(t[p + 2].c_str()) : 0;
+  GeoCoords g; string res = guarded([&] {
+    switch (via) {
+    case 1: g.Reset(s, centerp); break;
+    case 2: g.Reset(s); break;
+    case 3: g = GeoCoords(s, centerp, longfirst); break;
+    case 4: g = GeoCoords(s, centerp); break;
+    case 5: g = GeoCoords(s); break;
+    default: g.Reset(s, centerp, longfirst); break;
+    }
+  });
+  Rec r; r.str("e", "gc").li("s", vt::codes(s)).b("c", centerp).b("w", longfirst).i("via", via).str("out", res).str("kf", kf_gc(s, longfirst));
   bool ok = res == "ok";
   put(r, "lat", quant(ok ? g.Latitude() : 0.0)); put(r, "lon", quant(ok ? g.Longitude() : 0.0));
   r.i("zone", ok ? g.Zone() : -99).b("northp", ok && g.Northp()); nm_limbs(r, "x", ok ? g.Easting() : 0.0); nm_limbs(r, "y", ok ? g.Northing() : 0.0);
@@ -225,18 +270,56 @@ static void do_gc(const vector<string>& t) {
 }
 
 static long long exm(double y, double x, long double unit);
+static long long exms(double y, double x, long double unit, bool shifted);
 static void do_us(const vector<string>& t) {
   int zone = atoi(t[1].c_str()); bool northp = atoi(t[2].c_str()) != 0; long long E4 = atoll(t[3].c_str()), N4 = atoll(t[4].c_str());
   int prec = atoi(t[5].c_str()); bool abbrev = atoi(t[6].c_str()) != 0;
   long double u = prec >= 0 ? 1 / pow10l_(prec) : pow10l_(-prec);
   double e = double((long double) E4 / 4 * u), n = double((long double) N4 / 4 * u);
-  GeoCoords g; string code; string res = guarded([&] { g.Reset(zone, northp, e, n); code = g.UTMUPSRepresentation(prec, abbrev); });
+  int via = t.size() > 7 ? atoi(t[7].c_str()) : 0;
+  GeoCoords g; string code, acode; string res = guarded([&] { if (via) g = GeoCoords(zone, northp, e, n); else g.Reset(zone, northp, e, n);
+                                                                 code = g.UTMUPSRepresentation(prec, abbrev); acode = g.AltUTMUPSRepresentation(prec, abbrev); });
   GeoCoords q; string qres = guarded([&] { q.Reset(code); });
   bool ok = res == "ok" && qres == "ok";
   double qy = ok ? q.Northing() : 0; if (ok && q.Zone() > 0 && q.Northp() != northp) qy += (northp ? -1 : 1) * UTMUPS::UTMShift();
   Rec r; r.str("e", "us").i("zone", zone).b("northp", northp).i("E4", E4).i("N4", N4).i("prec", prec).b("abbrev", abbrev).str("out", res)
-    .li("code", vt::codes(code)).str("qout", qres).i("qzone", ok ? q.Zone() : -99).b("qnorthp", ok && q.Northp())
+    .li("code", vt::codes(code)).li("acode", vt::codes(acode)).i("via", via).str("qout", qres).i("qzone", ok ? q.Zone() : -99).b("qnorthp", ok && q.Northp())
     .b("onequator", res == "ok" && g.Latitude() == 0).i("exx", ok ? exm(q.Easting(), e, u) : -1).i("exy", ok ? exm(qy, n, u) : -1).str("kf", "none"); r.emit();
+}
+// UTM/UPS string with hemisphere override
+static void do_uso(const vector<string>& t) {
+  int zone = atoi(t[1].c_str()); bool northp = atoi(t[2].c_str()) != 0; long long E4 = atoll(t[3].c_str()), N4 = atoll(t[4].c_str());
+  int prec = atoi(t[5].c_str()); bool abbrev = atoi(t[6].c_str()) != 0, np2 = atoi(t[7].c_str()) != 0, alt = atoi(t[8].c_str()) != 0;
+  long double u = prec >= 0 ? 1 / pow10l_(prec) : pow10l_(-prec);
+  double e = double((long double) E4 / 4 * u), n = double((long double) N4 / 4 * u);
+  GeoCoords g; string code; string res = guarded([&] { g.Reset(zone, northp, e, n); code = alt ? g.AltUTMUPSRepresentation(np2, prec, abbrev) : g.UTMUPSRepresentation(np2, prec, abbrev); });
+  GeoCoords q; string qres = guarded([&] { q.Reset(code); });
+  bool ok = res == "ok" && qres == "ok";
+  double qy = ok ? q.Northing() : 0; if (ok && q.Zone() > 0 && q.Northp() != northp) qy += (northp ? -1 : 1) * UTMUPS::UTMShift();
+  Rec r; r.str("e", "uso").i("zone", zone).b("northp", northp).i("E4", E4).i("N4", N4).i("prec", prec).b("abbrev", abbrev).b("np2", np2).b("alt", alt).str("out", res)
+    .li("code", vt::codes(code)).str("qout", qres).i("qzone", ok ? q.Zone() : -99).b("qnorthp", ok && q.Northp())
+    .i("exx", ok ? exm(q.Easting(), e, u) : -1).i("exy", ok ? exms(qy, n, u, np2 != northp || (ok && q.Northp() != northp)) : -1).str("kf", "none"); r.emit();
+}
+
+// the undefined position and its representations
+static void do_gn(const vector<string>& t) {
+  int how = atoi(t[1].c_str()), rep = atoi(t[2].c_str()), prec = atoi(t[3].c_str());
+  GeoCoords g; string code; string res = guarded([&] {
+    if (how == 1) g.Reset(Math::NaN(), Math::NaN());
+    switch (rep) {
+    case 0: code = g.GeoRepresentation(prec); break;
+    case 1: code = g.DMSRepresentation(prec); break;
+    case 2: code = g.UTMUPSRepresentation(prec); break;
+    case 3: code = g.UTMUPSRepresentation(prec, false); break;
+    case 4: code = g.MGRSRepresentation(prec); break;
+    case 5: code = g.AltUTMUPSRepresentation(prec); break;
+    case 6: code = g.AltMGRSRepresentation(prec); break;
+    default: code = g.UTMUPSRepresentation(true, prec); break;
+    }
+  });
+  GeoCoords q(0.0, 0.0); string qres = guarded([&] { q.Reset(code); });
+  Rec r; r.str("e", "gn").i("how", how).i("rep", rep).i("prec", prec).str("rout", res).li("code", vt::codes(code)).str("qout", qres)
+    .b("qnan", qres == "ok" && std::isnan(q.Latitude()) && std::isnan(q.Longitude()) && std::isnan(q.Easting()) && std::isnan(q.Northing())).i("qzone", qres == "ok" ? q.Zone() : -99); r.emit();
 }
 
 static void replay_item(const string& line) {
@@ -245,7 +328,8 @@ static void replay_item(const string& line) {
   if (k == "dec") do_dec(t); else if (k == "ll") do_ll(t); else if (k == "ang") do_ang(t, false); else if (k == "azi") do_ang(t, true);
   else if (k == "enc") do_enc(t, false); else if (k == "ench") do_enc(t, true); else if (k == "encp") do_encp(t);
   else if (k == "val") do_val(t); else if (k == "nm") do_nm(t); else if (k == "fr") do_fr(t); else if (k == "str") do_str(t);
-  else if (k == "pl") do_pl(t); else if (k == "lk") do_lk(t); else if (k == "trim") do_trim(t); else if (k == "gc") do_gc(t); else if (k == "us") do_us(t);
+  else if (k == "pl") do_pl(t); else if (k == "lk") do_lk(t); else if (k == "trim") do_trim(t); else if (k == "gc" || k == "gcv") do_gc(t); else if (k == "us") do_us(t);
+  else if (k == "vb") do_vb(t); else if (k == "vi") do_vi(t); else if (k == "vs") do_vs(t); else if (k == "dn") do_dn(t); else if (k == "sp") do_sp(t); else if (k == "uso") do_uso(t); else if (k == "gn") do_gn(t);
   else { Rec r; r.str("e", "unknown").str("k", k); r.emit(); }
 }
 
@@ -386,13 +470,21 @@ static void rec_fz(vt::Rng& g) {
 
 // GeoCoords: position -> every representation -> Reset -> position
 static long long exm(double y, double x, long double unit) { return std::isfinite(y) && std::isfinite(x) ? excess(fabsl((long double) y - x), unit, x, y) : -1; }
+// the same when the printed number was x shifted by the false northing: round-off is that of the larger, printed magnitude
+static long long exms(double y, double x, long double unit, bool shifted) {
+  if (!shifted) return exm(y, x, unit);
+  return std::isfinite(y) && std::isfinite(x) ? excess(fabsl((long double) y - x), unit, max(fabs(x), double(UTMUPS::UTMShift())), y) : -1;
+}
 static void rec_geo(vt::Rng& g) {
   double lat = g.uni(-90, 90), lon = g.uni(-540, 540);
   int w = int(g.range(0, 11));
   if (w == 0) lat = g.coin() ? 90 : -90; if (w == 1) lat = g.coin() ? 84 : -80; if (w == 2) lat = g.uni(83.5, 84.5); if (w == 3) lat = g.uni(-80.5, -79.5);
   if (w == 4) lat = g.uni(-0.01, 0.01); if (w == 5) lon = 6 * double(g.range(-30, 30)) + g.uni(-0.001, 0.001); if (w == 6) lat = g.uni(84, 90) * (g.coin() ? 1 : -1);
   if (w == 7) { lat = double(g.range(-89, 89)); lon = double(g.range(-180, 180)); }
-  GeoCoords p; string r0 = guarded([&] { p.Reset(lat, lon); });
+  // the position is set by one of the calls that GeoCoords.hpp declares equivalent
+  int pvia = int(g.range(0, 3));
+  GeoCoords p; string r0 = guarded([&] {
+    switch (pvia) { case 1: p.Reset(lat, lon, UTMUPS::STANDARD); break; case 2: p = GeoCoords(lat, lon); break; case 3: p = GeoCoords(lat, lon, UTMUPS::STANDARD); break; default: p.Reset(lat, lon); break; } });
   int kind = int(g.range(0, 4));      // 0 geo, 1 dms, 2 utm, 3 mgrs, 4 utm with the other token order / long form
   int prec = kind == 0 ? int(g.range(-6, 10)) : kind == 1 ? int(g.range(-6, 11)) : kind == 3 ? int(g.range(-7, 7)) : int(g.range(-6, 10));
   bool longfirst = g.coin(), abbrev = g.coin(), centerp = g.coin(); int sep = g.coin() ? ':' : 0;
@@ -413,6 +505,9 @@ static void rec_geo(vt::Rng& g) {
   bool ok = r0 == "ok" && rres == "ok" && qres == "ok";
   r.i("zone", r0 == "ok" ? p.Zone() : -99).b("northp", r0 == "ok" && p.Northp()).i("qzone", ok ? q.Zone() : -99).b("qnorthp", ok && q.Northp());
   r.i("latm", clipll(nearbyintl((long double) lat * 1e6L)));      // latitude in micro-degrees, for the equator / pole clauses
+  // the longitude held ("internally longitudes are reduced to [-180, 180]"): its value and its distance from lon modulo 360 in ulps of 360
+  r.i("pvia", pvia); put(r, "pl", quant(r0 == "ok" ? p.Longitude() : 0.0));
+  r.i("plex", r0 == "ok" ? clipll(ceill(fabsl(remainderl((long double) p.Longitude() - lon, 360.0L)) / ulp_of(max(fabs(lon), 360.0)))) : -1);
   long long exlat = -1, exlon = -1, exx = -1, exy = -1, lox = -1, loy = -1;
   if (ok) {
     int pe = kind == 0 ? max(0, min(9, prec) + 5) : max(0, min(10, prec) + 5);
@@ -442,6 +537,47 @@ static void rec_geo(vt::Rng& g) {
   r.i("exlat", exlat).i("exlon", exlon).i("exx", exx).i("exy", exy).i("lox", lox).i("loy", loy); r.emit();
 }
 
+// GeoCoords with an alternate zone / a hemisphere override: every Alt*Representation and UTMUPSRepresentation(northp, ...) -> Reset
+static void rec_alt(vt::Rng& g) {
+  // a point within half a degree of the boundary between two standard UTM zones, away from the exceptions of Norway and Svalbard
+  int kb = int(g.range(-29, 29)); double off = g.uni(-0.5, 0.5); if (off == 0) off = 0.25;
+  double lat = g.uni(-60, 55), lon = 6.0 * kb + off; if (g.range(0, 9) == 0) lat = g.uni(-0.01, 0.01);
+  GeoCoords p; string r0 = guarded([&] { p.Reset(lat, lon); });
+  int zone = r0 == "ok" ? p.Zone() : -99;
+  int how = int(g.range(0, 5));       // 0..2 the neighbouring zone, 3 the same zone, 4 STANDARD, 5 MATCH
+  int req = how <= 2 ? (off >= 0 ? zone - 1 : zone + 1) : how == 3 ? zone : how == 4 ? UTMUPS::STANDARD : UTMUPS::MATCH;
+  int kind = int(g.range(0, 3));      // 0 AltUTMUPS(prec, abbrev), 1 AltUTMUPS(northp, prec, abbrev), 2 AltMGRS(prec), 3 UTMUPS(northp, prec, abbrev)
+  int prec = kind == 2 ? int(g.range(-6, 6)) : int(g.range(-6, 9)); bool abbrev = g.coin(), np2 = g.coin();
+  string s; string rres = guarded([&] {
+    p.SetAltZone(req);
+    switch (kind) {
+    case 0: s = p.AltUTMUPSRepresentation(prec, abbrev); break;
+    case 1: s = p.AltUTMUPSRepresentation(np2, prec, abbrev); break;
+    case 2: s = p.AltMGRSRepresentation(prec); break;
+    default: s = p.UTMUPSRepresentation(np2, prec, abbrev); break;
+    }
+  });
+  GeoCoords q; string qres = guarded([&] { q.Reset(s, true, false); });
+  bool ok = r0 == "ok" && rres == "ok" && qres == "ok";
+  Rec r; r.str("e", "alt").i("kind", kind).i("how", how).i("req", req).i("prec", prec).b("abbrev", abbrev).b("np2", np2)
+    .str("lat", vt::hexf(lat)).str("lon", vt::hexf(lon)).str("r0", r0).str("rout", rres).li("code", vt::codes(s)).str("qout", qres).str("kf", "none");
+  r.i("zone", zone).i("altzone", r0 == "ok" && rres == "ok" ? p.AltZone() : -99).b("northp", r0 == "ok" && p.Northp()).i("qzone", ok ? q.Zone() : -99).b("qnorthp", ok && q.Northp());
+  r.i("latm", clipll(nearbyintl((long double) lat * 1e6L)));
+  long long exx = -1, exy = -1; int pm = -2;
+  if (ok) {
+    double pe = kind == 3 ? p.Easting() : p.AltEasting(), pn = kind == 3 ? p.Northing() : p.AltNorthing();
+    double qy = q.Northing(); if (q.Zone() > 0 && q.Northp() != p.Northp()) qy += (p.Northp() ? -1 : 1) * UTMUPS::UTMShift();
+    if (kind == 2) {
+      pm = max(-1, min(6, prec) + 5);
+      if (pm >= 0) { long double cell = pow10l_(5 - min(pm, 5)) / pow10l_(max(0, pm - 5)); exx = exm(q.Easting(), pe, cell); exy = exm(qy, pn, cell); }
+    } else {
+      int pc = max(-5, min(9, prec)); long double u = pc >= 0 ? 1 / pow10l_(pc) : pow10l_(-pc);
+      exx = exm(q.Easting(), pe, u); exy = exms(qy, pn, u, ((kind == 1 || kind == 3) && np2 != p.Northp()) || q.Northp() != p.Northp());
+    }
+  }
+  r.i("pm", pm).i("exx", exx).i("exy", exy); r.emit();
+}
+
 // DecodeLatLon on a pair of encoder outputs in either order
 static void rec_llr(vt::Rng& g) {
   double lat = g.uni(-90, 90), lon = g.uni(-180, 180); if (g.range(0, 9) == 0) lat = double(g.range(-90, 90)); if (g.range(0, 9) == 0) lon = double(g.range(-180, 180));
@@ -462,7 +598,8 @@ static void record_item(uint64_t seed, long long it) {
   case 0: case 1: case 2: rec_rt(g); break;
   case 3: rec_rtn(g); break;
   case 4: case 5: case 6: rec_fz(g); break;
-  case 7: case 8: rec_geo(g); break;
+  case 7: rec_geo(g); break;
+  case 8: if ((it / 10) % 2) rec_alt(g); else rec_geo(g); break;
   default: rec_llr(g); break;
   }
 }
